@@ -23,7 +23,7 @@ ASSUMPTIONS = [
     "potentials are compared as differences to an anchor node (a new reference shifts all potentials by one constant)",
     "state-space behaviour is addressed by NAME through the model's published `sources` list",
 ]
-N = {'quick': {'net': 900, 'circ': 500, 'ssm': 260, 'transient': 120}, 'thorough': {'net': 16000, 'circ': 9000, 'ssm': 4000, 'transient': 1800}}
+N = {'quick': {'net': 1800, 'circ': 1000, 'ssm': 520, 'transient': 240}, 'thorough': {'net': 16000, 'circ': 9000, 'ssm': 4000, 'transient': 1800}}
 W_RES = 1e-3
 
 
@@ -94,8 +94,11 @@ def transform_circ(cd, T, keep_ground=False):
 def generate(tier, seed, shard, nshards):
     rng = random.Random(f'C03/{seed}/{shard}')
     n = N[tier]
-    for _ in range(n['net'] // nshards):
+    from .C06 import salted
+    for k in range(n['net'] // nshards):
         d = G.random_network(rng, max_nodes=6, max_branches=10)
+        if k % 4 == 3:
+            d = salted(rng, d)            # nodes / node groups hanging on open branches, labelled to sort before or after the others
         for _ in range(2):
             yield {'kind': 'net', 'net': d, 'T': make_transform(rng, netdesc.nodes(d), [b['id'] for b in d['branches']], G.NODE_POOL, G.ID_POOL)}
     for _ in range(n['circ'] // nshards):
@@ -173,7 +176,7 @@ def judge_net(case, ctx, prefix):
     d1, T = case['net'], case['T']
     refd = netsolve.reference(d1)
     if refd is None or refd['kappa'] > netsolve.KAPPA_MAX:
-        ctx.count('set_aside')
+        impedance_pairs_only(case, ctx, prefix)
         return
     d2 = transform_net(d1, T)
     nodes, ids = netdesc.nodes(d1), [b['id'] for b in d1['branches']]
@@ -213,6 +216,42 @@ def judge_net(case, ctx, prefix):
         if abs(z1 - z2) > refd['tol'] * 64 * max(abs(z1), sc['zmax']):
             ctx.violation(f'{prefix}/net/port-impedance', f'Z({a!r},{b!r}) = {z1!r} but {z2!r} after the transform', {'transform': T})
         ctx.count('impedance_pairs')
+
+
+def impedance_pairs_only(case, ctx, prefix):
+    """networks that cannot be solved (floating parts) still have port impedances: relate them under the transform"""
+    from CircuitCalculator.Network.NodalAnalysis.node_analysis import open_circuit_impedance
+    from ..ref import tableau
+    d1, T = case['net'], case['T']
+    d2 = transform_net(d1, T)
+    n1, n2 = call(netdesc.to_lib, d1), call(netdesc.to_lib, d2)
+    if raised(n1) or raised(n2):
+        ctx.count('set_aside')
+        return
+    nodes = netdesc.nodes(d1)
+    ref_net = netdesc.to_ref(d1)
+    prs = [(a, b) for a in nodes for b in nodes if a != b]
+    ctx.rng.shuffle(prs)
+    tc = tclass(T, [b['id'] for b in d1['branches']], nodes)
+    for a, b in prs[:4]:
+        st, zref = tableau.port_impedance(ref_net, a, b)
+        if st != 'ok':
+            continue
+        part = tableau.port_part(ref_net, a, b)
+        kap, sc = floatmna.kappa_and_scales(part)
+        if not kap < 1e8:
+            continue
+        z1 = call(open_circuit_impedance, n1, a, b)
+        z2 = call(open_circuit_impedance, n2, T['nodes'][a], T['nodes'][b])
+        ctx.count('impedance_pairs'); ctx.count('impedance_pairs_with_floating_parts')
+        ctx.evaluated(netdesc.signature(d1) + repr(tc) + 'Z', tc[0] or tc[1] or tc[2])
+        if raised(z1) or raised(z2):
+            if raised(z1) != raised(z2):
+                ctx.violation(f'{prefix}/net/impedance-raises-only-on-one-side', f'Z({a!r},{b!r}): {z1!r} vs {z2!r}', {'transform': T})
+            continue
+        z1, z2 = complex(z1), complex(z2)
+        if abs(z1 - z2) > floatmna.tolerance(kap) * 64 * max(abs(z1), sc['zmax']):
+            ctx.violation(f'{prefix}/net/port-impedance', f'Z({a!r},{b!r}) = {z1!r} but {z2!r} after the transform (network with floating parts)', {'transform': T})
 
 
 def judge_circ(case, ctx, prefix):
